@@ -156,8 +156,8 @@ type caseWorld struct {
 	w      *sim.World
 	honest *sim.Replica
 	victim *sim.Replica
-	adv    *repository.GoGitRepo
-	hubDir string
+	adv    *repository.GoGitRepo // adversary's handle on hub1 (the hostile remote)
+	pub    *repository.GoGitRepo // handle on hub0 (the honest remote the victim synchronised with before)
 	authors []string
 }
 
@@ -165,7 +165,7 @@ func newCaseWorld(p *sim.Plan, st *sim.Step, keep bool) (*caseWorld, error) {
 	w := sim.NewWorld(sim.Mix(p.RunSeed, uint64(st.Id)), keep)
 	cw := &caseWorld{w: w}
 	hub := w.AddHub("hub0")
-	cw.hubDir = hub.Dir
+	hub1 := w.AddHub("hub1")
 	cw.honest = w.AddReplica("honest", "entity", 1_690_000_000)
 	level := st.T
 	if level == "" {
@@ -179,6 +179,9 @@ func newCaseWorld(p *sim.Plan, st *sim.Step, keep bool) (*caseWorld, error) {
 			return nil, err
 		}
 		if err := r.AddRemote("hub0", hub); err != nil {
+			return nil, err
+		}
+		if err := r.AddRemote("hub1", hub1); err != nil {
 			return nil, err
 		}
 	}
@@ -221,11 +224,20 @@ func newCaseWorld(p *sim.Plan, st *sim.Step, keep bool) (*caseWorld, error) {
 			return nil, err
 		}
 	}
-	adv, err := repository.OpenGoGitRepo(hub.Dir, "git-bug-adversary", nil)
+	pub, err := repository.OpenGoGitRepo(hub.Dir, "git-bug-adversary", nil)
+	if err != nil {
+		return nil, fmt.Errorf("publisher handle: %w", err)
+	}
+	cw.pub = pub
+	adv, err := repository.OpenGoGitRepo(hub1.Dir, "git-bug-adversary", nil)
 	if err != nil {
 		return nil, fmt.Errorf("adversary handle: %w", err)
 	}
 	cw.adv = adv
+	// the hostile remote also serves the honest identities
+	if _, err := identity.Push(cw.honest.Sim, "hub1"); err != nil {
+		return nil, fmt.Errorf("honest push to hub1: %w", err)
+	}
 	// the adversary's writes carry a constant timestamp: equal nodes give equal commits
 	w.Act(nil)
 	return cw, nil
@@ -234,6 +246,9 @@ func newCaseWorld(p *sim.Plan, st *sim.Step, keep bool) (*caseWorld, error) {
 func (cw *caseWorld) close() {
 	if cw.adv != nil {
 		_ = cw.adv.Close()
+	}
+	if cw.pub != nil {
+		_ = cw.pub.Close()
 	}
 	cw.w.Close()
 }
@@ -258,7 +273,7 @@ type mergeOut struct {
 }
 
 // victimPull runs the real fetch + MergeAll on the victim.
-func (cw *caseWorld) victimPull() (outs []mergeOut, err error) {
+func (cw *caseWorld) victimPull(remote string) (outs []mergeOut, err error) {
 	v := cw.victim
 	cw.w.Act(v)
 	defer func() {
@@ -271,21 +286,21 @@ func (cw *caseWorld) victimPull() (outs []mergeOut, err error) {
 		outs = append(outs, mergeOut{Id: string(res.Id), Status: res.Status, Reason: res.Reason, Err: res.Err, Ent: res.Entity})
 	}
 	if v.Cache != nil {
-		if _, err := v.Cache.Fetch("hub0"); err != nil {
+		if _, err := v.Cache.Fetch(remote); err != nil {
 			return nil, fmt.Errorf("fetch: %w", err)
 		}
-		for res := range v.Cache.MergeAll("hub0") {
+		for res := range v.Cache.MergeAll(remote) {
 			collect(res)
 		}
 		return outs, nil
 	}
-	if _, err := identity.Fetch(v.Sim, "hub0"); err != nil {
+	if _, err := identity.Fetch(v.Sim, remote); err != nil {
 		return nil, fmt.Errorf("fetch: %w", err)
 	}
-	if _, err := bug.Fetch(v.Sim, "hub0"); err != nil {
+	if _, err := bug.Fetch(v.Sim, remote); err != nil {
 		return nil, fmt.Errorf("fetch: %w", err)
 	}
-	for res := range identity.MergeAll(v.Sim, "hub0") {
+	for res := range identity.MergeAll(v.Sim, remote) {
 		collect(res)
 	}
 	author, err := identity.GetUserIdentity(v.Sim)
@@ -293,7 +308,7 @@ func (cw *caseWorld) victimPull() (outs []mergeOut, err error) {
 		return outs, err
 	}
 	resolvers := entity.Resolvers{&identity.Identity{}: identity.NewSimpleResolver(v.Sim)}
-	for res := range bug.MergeAll(v.Sim, resolvers, "hub0", author) {
+	for res := range bug.MergeAll(v.Sim, resolvers, remote, author) {
 		collect(res)
 	}
 	return outs, nil
@@ -439,19 +454,24 @@ func findMutation(name string) *mutation {
 }
 
 // publish stores the closure of node `upto` through the adversary handle and points ref at it.
-func (cw *caseWorld) publish(h *history, upto int, refName string) (repository.Hash, error) {
-	head, err := h.store(cw.adv, upto)
+func (cw *caseWorld) publish(w *repository.GoGitRepo, h *history, upto int, refName string) (repository.Hash, error) {
+	if h.Recommit {
+		// same content, other commits: the commits carry another timestamp
+		cw.w.IdleWall = 1_700_000_777
+		defer func() { cw.w.IdleWall = 1_700_000_000 }()
+	}
+	head, err := h.store(w, upto)
 	if err != nil {
 		return "", err
 	}
 	target := head
 	switch h.RawRefTarget {
 	case "blob":
-		target, _ = cw.adv.StoreData([]byte("just a blob"))
+		target, _ = w.StoreData([]byte("just a blob"))
 	case "tree":
-		target, _ = model.StoreEntries(cw.adv, h.Nodes[upto].entries())
+		target, _ = model.StoreEntries(w, h.Nodes[upto].entries())
 	}
-	return head, cw.adv.UpdateRef("refs/bugs/"+refName, target)
+	return head, w.UpdateRef("refs/bugs/"+refName, target)
 }
 
 func flipBytes(data []byte, seed int) []byte {
@@ -514,56 +534,59 @@ func (e *Engine) bugCase(p *sim.Plan, st *sim.Step, res *sim.RunResult, keep boo
 		situation = "absent"
 	}
 	// store both to learn which nodes the mutation changed
-	if _, err := valid.store(cw.adv, valid.head()); err != nil {
+	if _, err := valid.store(cw.pub, valid.head()); err != nil {
 		res.HarnessErr = "store valid: " + err.Error()
 		return nil, "skipped"
 	}
 	hostileHead := hostile.head()
-	if _, err := hostile.store(cw.adv, hostileHead); err != nil {
+	if hostile.Recommit {
+		cw.w.IdleWall = 1_700_000_777
+	}
+	_, herr := hostile.store(cw.adv, hostileHead)
+	cw.w.IdleWall = 1_700_000_000
+	if err := herr; err != nil {
 		// the adversary cannot even store it (e.g. go-git refuses): not a case
 		return nil, "skipped"
 	}
 	if situation != "absent" {
-		// The victim first pulled a valid earlier version. go-git refuses to move a
-		// remote-tracking ref backwards or sideways (the fetch refspec carries no '+'), so
-		// the crafted version can only reach the merge when it EXTENDS what the victim
-		// fetched before: the prefix must consist of nodes the mutation left unchanged.
-		changed := map[int]bool{}
-		for i := range valid.Nodes {
-			if i >= len(hostile.Nodes) || valid.Nodes[i].Hash != hostile.Nodes[i].Hash {
-				changed[i] = true
-			}
+		// The victim got a valid (earlier) version from the honest remote hub0; the crafted
+		// version comes from a second remote, hub1, so it need not extend anything the victim
+		// has (go-git only refuses to move an EXISTING remote-tracking ref sideways).
+		k := valid.head()
+		if situation == "behind" || situation == "diverged" {
+			k = valid.head() / 2
 		}
-		var clean []int
-		for k := range valid.Nodes {
-			ok := true
-			for _, a := range valid.ancestors(k) {
-				if changed[a] {
-					ok = false
+		if m.Verdict == "accept" {
+			// controls: the local prefix must consist of nodes the mutation left unchanged,
+			// otherwise the same operations would sit in two different commits
+			changed := map[int]bool{}
+			for i := range valid.Nodes {
+				if i >= len(hostile.Nodes) || valid.Nodes[i].Hash != hostile.Nodes[i].Hash {
+					changed[i] = true
 				}
 			}
-			if ok {
-				clean = append(clean, k)
-			}
-		}
-		k := -1
-		if len(clean) > 0 {
-			switch situation {
-			case "equal", "ahead":
-				k = clean[len(clean)-1] // as much as possible already local
-			default:
-				k = clean[len(clean)/2]
+			for k >= 0 {
+				ok := true
+				for _, a := range valid.ancestors(k) {
+					if changed[a] {
+						ok = false
+					}
+				}
+				if ok {
+					break
+				}
+				k--
 			}
 		}
 		if k < 0 {
 			situation = "absent"
 		}
 		if situation != "absent" {
-			if _, err := cw.publish(valid, k, bugId); err != nil {
+			if _, err := cw.publish(cw.pub, valid, k, bugId); err != nil {
 				res.HarnessErr = "publish valid: " + err.Error()
 				return nil, "skipped"
 			}
-			outs, err := cw.victimPull()
+			outs, err := cw.victimPull("hub0")
 			if err != nil {
 				res.HarnessErr = fmt.Sprintf("victim cannot pull the valid prefix: %v", err)
 				return nil, "skipped"
@@ -598,19 +621,19 @@ func (e *Engine) bugCase(p *sim.Plan, st *sim.Step, res *sim.RunResult, keep boo
 	cw.w.Act(nil)
 
 	// ---- publish the hostile version and a valid bystander
-	if _, err := cw.publish(hostile, hostileHead, refName); err != nil {
+	if _, err := cw.publish(cw.adv, hostile, hostileHead, refName); err != nil {
 		return nil, "skipped"
 	}
 	bg := &gen{r: sim.NewRand(sim.Mix(p.RunSeed, 99)), wall: 1_695_000_000, authors: cw.authors}
 	by := bg.genHistory(2)
 	byId := by.bugId()
-	if _, err := cw.publish(by, by.head(), byId); err != nil {
+	if _, err := cw.publish(cw.adv, by, by.head(), byId); err != nil {
 		res.HarnessErr = "publish bystander: " + err.Error()
 		return nil, "skipped"
 	}
 
 	preRefs, preOps := localState(cw.victim.Raw)
-	outs, pullErr := cw.victimPull()
+	outs, pullErr := cw.victimPull("hub1")
 	postRefs, postOps := localState(cw.victim.Raw)
 	panics := verifrt.TakePanics()
 	for _, pr := range panics {
@@ -689,7 +712,7 @@ func (e *Engine) bugCase(p *sim.Plan, st *sim.Step, res *sim.RunResult, keep boo
 	case "either":
 		if refused || target == nil {
 			if preRefs[localRef] != postRefs[localRef] {
-				add("local-ref-changed", "local ref %s moved although the merge reported %q", localRef, status)
+				add("local-ref-changed", "local ref %s moved although the merge reported %q (%s)", localRef, status, reasonOf(target))
 			}
 			if preOps[localRef] != postOps[localRef] {
 				add("local-entity-changed", "local bug changed although the merge reported %q", status)
@@ -807,7 +830,7 @@ func (e *Engine) localCase(p *sim.Plan, st *sim.Step, res *sim.RunResult, keep b
 	defer cw.close()
 	valid.withAuthors(cw.authors)
 	// the victim knows the authors
-	if _, err := cw.victimPull(); err != nil {
+	if _, err := cw.victimPull("hub0"); err != nil {
 		res.HarnessErr = "victim pull: " + err.Error()
 		return nil, "skipped"
 	}
